@@ -160,6 +160,9 @@ func debugFunc(sub string, keep, verbose bool, timeout int) int {
 	solveAll(cfg, all, stats)
 	for _, r := range results {
 		fmt.Printf("== %s (mode %s, %d paths)\n", r.Key, r.Mode, r.Paths)
+		if r.FalseAssumes > 0 {
+			fmt.Printf("  WARNING: %d path(s) ended by a literally false hypothesis (vacuity hazard)\n", r.FalseAssumes)
+		}
 		for _, o := range r.Obls {
 			status := "ok  "
 			if !o.Discharged {
